@@ -18,6 +18,7 @@ import (
 	cache "github.com/go-pkgz/expirable-cache/v3"
 	"github.com/zen-eth/shisui/portalwire"
 	"github.com/zen-eth/shisui/storage"
+	utp "github.com/zen-eth/utp-go"
 )
 
 // Quiet turns shisui / go-ethereum logging off (error-level logs are part of
@@ -340,3 +341,15 @@ func BareProtocol(key *ecdsa.PrivateKey, versions []uint8, netw portalwire.Proto
 
 // VersionsEntry returns the ENR entry advertising protocol versions.
 func VersionsEntry(v []uint8) enr.Entry { return versionsEntry(v) }
+
+// ShortUtpConfig returns uTP timers suited to the in-memory fabric: with
+// utp-go's defaults about half of the small transfers stall for 5 s on a perfect
+// link (delayed ACK / retransmit timers); these keep transfers in the millisecond range.
+func ShortUtpConfig() *utp.ConnectionConfig {
+	c := utp.NewConnectionConfig()
+	c.InitialTimeout = 150 * time.Millisecond
+	c.MinTimeout = 60 * time.Millisecond
+	c.MaxTimeout = time.Second
+	c.MaxIdleTimeout = 4 * time.Second
+	return c
+}
